@@ -80,7 +80,7 @@ func buildProfile(s *Sim, r *rand.Rand) {
 		if !faultFree && r.IntN(6) == 0 {
 			p.Faults["unsub_pending"] = true
 		}
-		if !faultFree && r.IntN(6) == 0 {
+		if !faultFree && r.IntN(3) == 0 {
 			p.Faults["get_overlap"] = true
 		}
 		p.Strict = true
@@ -257,10 +257,10 @@ func (s *Sim) genCoreClientOp(c *Client) (Decision, bool) {
 	rid := pickOne(s, p.RIDs)
 	x := s.rng.Float64()
 	if !p.fault("get_overlap") {
-		// The region "a client get request overlapping other requests of the same
-		// connection" is dense with known findings (F-7, F-8, F-16, F-17): it is
-		// only generated when this fault kind is armed, and such connections are
-		// then judged for crashes and missing responses only.
+		// A client get request overlapping other requests of the same connection
+		// (where F-7, F-8, F-16 and F-17 were found) is generated only when this
+		// fault kind is armed, so that the other runs explore the rest as densely
+		// as before.
 		anyPending, getPending := false, false
 		for _, r := range c.ReqL {
 			if r.Resp == nil && r.Action != "unsubscribe" && r.Action != "version" {
